@@ -19,6 +19,7 @@ import importlib
 import importlib.machinery
 import importlib.util
 import json
+import keyword
 import os
 import pkgutil
 import random
@@ -130,14 +131,19 @@ def children(found, path):
     # pkgutil but is not an identifier; such names are counted, not required.
     out = set()
     for m in pkgutil.iter_modules(locs):
-        if m.name.isidentifier():
-            out.add(m.name)
-        else:
+        if not m.name.isidentifier():
             NON_IDENTIFIER_CHILDREN[0] += 1
+        elif keyword.iskeyword(m.name):
+            # 'class.py' is importable through importlib but 'import pkg.class' does not compile: a
+            # completion need not offer it.  SOFT keywords (match, type, case, _) are ordinary module names.
+            HARD_KEYWORD_CHILDREN[0] += 1
+        else:
+            out.add(m.name)
     return out
 
 
 NON_IDENTIFIER_CHILDREN = [0]
+HARD_KEYWORD_CHILDREN = [0]
 
 
 def same_file(a, b):
@@ -754,6 +760,9 @@ class TreeMon(object):
         p = self.p
         fn = os.path.join(self.dirs[root], *rel.split('/')) if rel else None
         query = {'type': 'assist', 'form': form, 'pkg': pkgspec, 'file': [root, rel] if rel else None, 'prefix': prefix}
+        if gen_tree.has_hard_keyword(pkgspec):
+            p.count('filtered:import-line-with-a-hard-keyword-component(does not compile)')
+            return
         if pkgspec.startswith('.'):
             try:
                 absname = importlib.util.resolve_name(pkgspec, gen_tree.package_of(rel))
@@ -830,11 +839,23 @@ class TreeMon(object):
 
         p.count('proposal_sets_compared')
         p.count('children_required', len(must))
+        for n in must:
+            cat = gen_tree.name_category(n)
+            if cat != 'plain':
+                p.hist('required_child_kind', cat)
+                if cat == 'soft-keyword':
+                    p.count('required_children_soft_keyword')
         if must:
             p.count('proposal_sets_with_required_children')
         missing = sorted(must - names)
         if missing:
-            self.violation('proposals-miss-enumerable-child' + (self.bare_dir_before(absname, orc) if absname else ''), '%s lacks %s which pkgutil.iter_modules(%s) enumerates' % (
+            cats = {gen_tree.name_category(n) for n in missing}
+            if len(cats) == 1 and cats != {'plain'}:
+                # only names of one odd family are dropped (e.g. a reserved-word filter that also takes soft keywords)
+                suffix = ':only-%s-names' % cats.pop()
+            else:
+                suffix = self.bare_dir_before(absname, orc) if absname else ''
+            self.violation('proposals-miss-enumerable-child' + suffix, '%s lacks %s which pkgutil.iter_modules(%s) enumerates' % (
                 call, missing[:5], self.describe(orc) if orc else 'roots + sys.path'), query)
         if form == 'from-import':
             return                      # module attributes are legitimately mixed in
@@ -1035,6 +1056,7 @@ def tree_features(tree):
     return {'sourceless': sum(1 for v in fb.values() for _, _, k in v if k == 'sourceless'),
             'ext': sum(1 for v in fb.values() for _, _, k in v if k == 'compiled-link'),
             'ns_shadow': sum(1 for v in fb.values() if {k for _, _, k in v} & ns and 'package' in {k for _, _, k in v}),
+            'odd': sorted({gen_tree.name_category(c) for n in fb for c in n.split('.')} - {'plain'}),
             'bare_top': [b for b in tree.get('bare', []) if '/' not in b[1]],
             'bare_nested': [b for b in tree.get('bare', []) if '/' in b[1]],
             'roots': len(tree['roots']), 'multi': len(multi), 'flip': len(flip), 'depth': depth,
@@ -1081,6 +1103,9 @@ def work_trees(arg):
         part.count('trees_with_stdlib_decoy', 1 if ft['decoys'] else 0)
         part.count('trees_with_sourceless_module', 1 if ft['sourceless'] else 0)
         part.count('trees_with_bare_directory_decoy', 1 if ft['bare_top'] or ft['bare_nested'] else 0)
+        part.count('trees_with_odd_module_names', 1 if ft['odd'] else 0)
+        for cat in ft['odd']:
+            part.hist('trees_by_odd_name_kind', cat)
         part.count('trees_with_real_extension_in_a_root', 1 if ft['ext'] else 0)
         part.count('trees_with_non_source_module_shadowing_a_package_of_another_root', 1 if ft['ns_shadow'] else 0)
         base = tempfile.mkdtemp(prefix='vf-')
@@ -1105,6 +1130,9 @@ def work_trees(arg):
         finally:
             shutil.rmtree(base, ignore_errors=True)
             fresh_finders()
+    part.count('enumerated_children_not_required:non-identifier', NON_IDENTIFIER_CHILDREN[0])
+    part.count('enumerated_children_not_required:hard-keyword', HARD_KEYWORD_CHILDREN[0])
+    NON_IDENTIFIER_CHILDREN[0] = HARD_KEYWORD_CHILDREN[0] = 0
     return part.dump()
 
 
@@ -1149,7 +1177,7 @@ def main(run):
                  'layouts_with_bare_directory_BEFORE_the_regular_package_or_module',
                  'layouts_with_bare_directory_AFTER_the_regular_package_or_module',
                  'use_locations_compared', 'use_attribute_sets_compared', 'agree:use-location-in-resolved-file',
-                 'agree:use-location-empty-where-importlib-raises', 'agree:use-attributes'),
+                 'agree:use-location-empty-where-importlib-raises', 'agree:use-attributes', 'required_children_soft_keyword'),
         assumptions=[
             'oracle = importlib.machinery.PathFinder.find_spec walked per component over roots + sys.path of the worker '
             'process, importlib.util.resolve_name, pkgutil.iter_modules (CPython %d.%d); meta-path finders other than '
@@ -1166,6 +1194,9 @@ def main(run):
             'domain filters (counted under filtered:*): PEP 420 portions met on the walk, names that resolve to a sourceless/other loader, '
             'relative specifiers from shadowed files; generated trees never contain namespace directories, x.py next to '
             'x/, two module files of one stem in a directory, nested roots, or fake extension files',
+            'a child that is an identifier but a HARD keyword (class.py) is importable through importlib yet cannot be written in '
+            'an import statement: it is never required among the proposals and no import line is generated through it; soft '
+            'keywords (match, type, case, _) are ordinary module names and are required',
             'bare directories (no __init__.py; empty, data files, stray .py files) are decoys next to a regular module/package '
             'of the same name in another root or in the standard library, so importlib never makes a top-level namespace '
             'package of them; a bare directory inside a regular package IS a namespace portion for importlib and every name '
